@@ -351,6 +351,11 @@ func c15Errors(r *lp.Run, drv *gc.Driver, pkg string) {
 	cases := []ec{
 		{"value", map[string]any{"respond": map[string]any{"$type": "*Item", "$value": map[string]any{"Name": "x"}}}, "200"},
 		{"plain error", map[string]any{"handler_error": "boom"}, "500"},
+		// errors the error path treats specially: exactly one response all the same
+		{"not implemented", map[string]any{"handler_error": "$not-implemented"}, "501"},
+		{"not implemented, wrapped", map[string]any{"handler_error": "$wrapped-not-implemented"}, "501"},
+		{"no answer scripted (the unimplemented handler)", map[string]any{}, "501"},
+		{"context canceled", map[string]any{"handler_error": "$canceled"}, "500"},
 		{"declared error 418", map[string]any{"respond_error": map[string]any{"$type": "*ErrorStatusCode", "$value": map[string]any{"StatusCode": json.Number("418"), "Response": map[string]any{"Code": json.Number("7"), "Message": "teapot"}}}}, "418"},
 		{"declared error 404", map[string]any{"respond_error": map[string]any{"$type": "*ErrorStatusCode", "$value": map[string]any{"StatusCode": json.Number("404"), "Response": map[string]any{"Code": json.Number("1"), "Message": "nf"}}}}, "404"},
 	}
@@ -373,6 +378,18 @@ func c15Errors(r *lp.Run, drv *gc.Driver, pkg string) {
 		}
 	}
 }
+
+// hand-built RawPath values (a client library or a proxy may set anything): a spelling that needs rewriting
+// followed by a broken escape
+var c15RawPaths = func() []string {
+	var out []string
+	for _, p := range []string{"/items/%34", "/items/4%32", "/it%65ms/42", "/items/%2f", "/items/42", "/items/%7e", "/%69tems/%34%32"} {
+		for _, sfx := range []string{"%", "%4", "%z", "%zz", "%4z", "%%", "%2", "%2F%", "%41%4", "%61%", "/%", "%2f%4"} {
+			out = append(out, p+sfx)
+		}
+	}
+	return out
+}()
 
 // byte-level mutations of a valid request and random requests: never a panic, exactly one
 // response, and the handler runs only for requests the reference accepts
@@ -413,9 +430,17 @@ func c15Mutations(r *lp.Run, rng *lp.Rand, drv *gc.Driver, pkg string, base stRe
 		}
 		body := *base.body
 		what := rng.Intn(6)
+		if i < len(c15RawPaths) {
+			what = 0
+		}
 		switch what {
 		case 0:
-			raw := mut("/items/42")
+			// escaped spellings of the path are mutated too (needless and lower-case escapes in front of the
+			// fault); the first requests are a fixed grid of such spellings with a broken escape at the end
+			raw := mut(lp.Pick(rng, []string{"/items/42", "/items/42", "/items/%34%32", "/it%65ms/4%32", "/%69tems/%34%32", "/items/%2f42"}))
+			if i < len(c15RawPaths) {
+				raw = c15RawPaths[i]
+			}
 			q.rawPath = raw
 			if u, err := url.PathUnescape(raw); err == nil {
 				q.path = u
